@@ -369,17 +369,27 @@ Definition dec_cfg (s tab : sx) : option cfg :=
   | _, _ => None
   end.
 
-Definition dec_state (s : sx) : option (Z * Z * Z * Z * str * Z) :=
+(* a state = (window size, position, text, cursor) and optionally a NEW window
+   configuration (wrap mode, margins, offsets, prefixes, processors,
+   allow_scroll_beyond_bottom) in force from this state on: the same Window
+   object is reconfigured, its scroll state carries over *)
+Definition dec_state (tab : sx) (s : sx) : option (Z * Z * Z * Z * str * Z * option cfg) :=
   match s with
   | L [A W; A Hh; A xp; A yp; t; A c] =>
-      match as_str t with Some t' => Some (W, Hh, xp, yp, t', c) | None => None end
+      match as_str t with Some t' => Some (W, Hh, xp, yp, t', c, None) | None => None end
+  | L [A W; A Hh; A xp; A yp; t; A c; g'] =>
+      match as_str t, dec_cfg g' tab with
+      | Some t', Some g => Some (W, Hh, xp, yp, t', c, Some g)
+      | _, _ => None
+      end
   | _ => None
   end.
 
-Fixpoint run_states (fixed : bool) (g : cfg) (sts : list (Z * Z * Z * Z * str * Z)) (st : sstate) : list sx :=
+Fixpoint run_states (fixed : bool) (g : cfg) (sts : list (Z * Z * Z * Z * str * Z * option cfg)) (st : sstate) : list sx :=
   match sts with
   | [] => []
-  | (W, Hh, xp, yp, t, c) :: r =>
+  | (W, Hh, xp, yp, t, c, og) :: r =>
+      let g := match og with Some g' => g' | None => g end in
       match render_gen fixed g W Hh xp yp t c st with
       | Some rd => enc_rendered rd :: run_states fixed g r (r_st rd)
       | None => L [A 1] :: run_states fixed g r st
@@ -390,7 +400,7 @@ Fixpoint run_states (fixed : bool) (g : cfg) (sts : list (Z * Z * Z * Z * str * 
 Definition run_C11 (s : sx) : sx :=
   match s with
   | L [c; tab; L sts] =>
-      match dec_cfg c tab, map_opt dec_state sts with
+      match dec_cfg c tab, map_opt (dec_state tab) sts with
       | Some g, Some sts' => L (run_states true g sts' (mkss 0 0 0))
       | _, _ => bad_case
       end
